@@ -29,7 +29,7 @@ func main() {
 	w.Meta.Rule = "real code: string.format('%q',s) + loadstring read-back; `return <literal>` chunks and parse.Scanner.Scan for string literals " +
 		"(every escape, every \\ddd in 1-3 digit forms, every raw byte in both quote forms, backslash-newline in 4 forms, long brackets level 0..3 with foreign closers and all newline forms, malformed/truncated literals); " +
 		"numerals through tonumber, s+0 and `return <s>` (enumerated spellings over a small alphabet: all checked on the Go side for three-way agreement, disagreements and a sample through Coq; structured numerals; tonumber with base 2..36); " +
-		"several literals in one function (2-3 per chunk: spellings of equal values incl. 0/-0/0.0/0x0 in both orders, each observed as v, 1/v, tostring(v); string literals in equal and different spellings); tostring/tonumber on floats; os.date('*t')/os.time and os.date formats in UTC. " +
+		"several literals in one function (2-3 per chunk: spellings of equal values incl. 0/-0/0.0/0x0 in both orders, each observed as v, 1/v, tostring(v); string literals in equal and different spellings); literals PLACED (every byte of literals with line ends in all four forms, of numerals, escapes and brackets on the last byte of a 4096-byte fill of the scanner's reader via LoadString and via LoadFile, and the same texts through readers that deliver 1, 2, 3, ... bytes per Read, with empty Reads or io.EOF together with the last bytes; literals longer than a fill); tostring/tonumber on floats; os.date('*t')/os.time and os.date formats in UTC. " +
 		"non-trivial = quote/literal with a byte outside printable ASCII or an escape; numeral spelling other than plain digits; float that is not a small integer; timestamp other than 0; distinct by Gallina term"
 	w.Meta.Extra = map[string]any{}
 	r := lib.NewRand(a.Seed)
@@ -44,6 +44,7 @@ func main() {
 		genFloats(w, r, a.Tier)
 		genDates(w, r, a.Tier)
 		genContext(w, r, a.Tier)
+		genPlaced(w, r, a.Tier)
 	}
 	if err := w.Close(); err != nil {
 		panic(err)
